@@ -45,7 +45,7 @@ PURE_APPS = {
     "builtins.repr", "builtins.bool", "builtins.frozenset", "builtins.tuple", "builtins.any", "builtins.all",
     "pathlib.Path", "re.match", "re.search", "re.fullmatch", "re.compile", "builtins.range", "builtins.enumerate",
     "builtins.zip", "builtins.getattr", "binascii.crc_hqx", "binascii.crc32", "zlib.crc32", "datetime.timezone.utc",
-    "builtins.hex",
+    "builtins.hex", "time.struct_time",
 }
 
 # clock-reading calls -> max number of positional args for which the *current* time is read
@@ -332,7 +332,7 @@ def call_ext(I: Any, name: str, args: List[Term], kwargs: Dict[str, Term], st: A
     if name == "dataclasses.field":
         return app("field", args, kwargs)
     # unknown external callable: observable event, opaque result
-    return I.external_call(name, args, kwargs, st, ctx, node, awaited)
+    return I.external_call(name, args, kwargs, st, ctx, node, awaited, opaque=True)
 
 
 # ---------------------------------------------------------------------------
@@ -1175,7 +1175,7 @@ def call_method(I: Any, recv: Term, name: str, args: List[Term], kwargs: Dict[st
                 return ("item?", recv, args[0], args[1] if len(args) > 1 else c(None))
             if name in ("keys", "values", "items"):
                 return app("." + name, [recv])
-        return I.external_call(f"{base}.{name}", args, kwargs, st, ctx, node, awaited)
+        return I.external_call(f"{base}.{name}", args, kwargs, st, ctx, node, awaited, opaque=not (isinstance(typ, tuple) and typ and typ[0] == "extobj") and typ not in ("any", "callable"))
     if recv[0] in ("app", "item", "attr", "lookup", "ite", "dec", "uint", "lin", "item?", "eattr", "len"):
         if recv[0] in ("uint", "lin", "len") or is_int_term(recv):
             if name == "to_bytes":
@@ -1222,7 +1222,7 @@ def call_method(I: Any, recv: Term, name: str, args: List[Term], kwargs: Dict[st
         return c(None)
     if recv[0] in ("map", "mapobj", "filterobj", "chunks"):
         return app("." + name, [recv] + args)
-    return I.external_call(f"{T.show(recv)}.{name}", args, kwargs, st, ctx, node, awaited)
+    return I.external_call(f"{T.show(recv)}.{name}", args, kwargs, st, ctx, node, awaited, opaque=True)
 
 
 def int_to_bytes(I: Any, v: Term, args: List[Term], kwargs: Dict[str, Term], st: Any, ctx: Any, node: ast.AST) -> Term:
